@@ -10,7 +10,7 @@ use crate::Blowfish;
 use byteorder::BE;
 use refmodels::blowfish as r;
 
-//@ harness name=bc_init_state prop=C14 tier=quick bits=0 est=30 desc="D: Blowfish::bc_init_state() is the pi-digit state (P_INIT, S_INIT) the reference algorithm starts from (no symbolic input: constant tables compared entry by entry)"
+//@ harness name=bc_init_state prop=C14 tier=quick bits=0 est=65 desc="D: Blowfish::bc_init_state() is the pi-digit state (P_INIT, S_INIT) the reference algorithm starts from (no symbolic input: constant tables compared entry by entry)"
 verif_harness! {
     name: bc_init_state,
     bytes: 1,
@@ -36,7 +36,7 @@ verif_harness! {
     }
 }
 
-//@ harness name=bc_encrypt prop=C14,C20 tier=quick bits=33408 stub=1 est=60 desc="W: bc_encrypt([l, r]) on an arbitrary state == Schneier's Blowfish encryption of the word pair under that state's P and S, all (l, r); round_function uninterpreted and shared with the oracle (leaf lemma bf_round_function, conf.rs)"
+//@ harness name=bc_encrypt prop=C14,C20 tier=quick bits=33408 stub=1 est=66 desc="W: bc_encrypt([l, r]) on an arbitrary state == Schneier's Blowfish encryption of the word pair under that state's P and S, all (l, r); round_function uninterpreted and shared with the oracle (leaf lemma bf_round_function, conf.rs)"
 verif_harness! {
     name: bc_encrypt,
     bytes: STATE + 8,
@@ -100,7 +100,7 @@ fn step(inp: &[u8], mode: u8, slen16: bool) -> Option<bool> {
     }
 }
 
-//@ harness name=bc_expand_key_w prop=C14,C20 tier=thorough bits=33928 stub=1 est=1500 mem=30 desc="W: bc_expand_key(key[..klen]) from an arbitrary pre-state == Schneier's key expansion from that state (= ordinary Blowfish keying when the pre-state is bc_init_state), klen symbolic 1..=72 (only the first 72 bytes of the cycled key are ever used), co-routine stub: arguments, P array and newest stored pair compared at each of the 521 calls, full state at calls 0/9/137/265/393 and at the end"
+//@ harness name=bc_expand_key_w prop=C14,C20 tier=thorough bits=33928 stub=1 est=342 mem=30 desc="W: bc_expand_key(key[..klen]) from an arbitrary pre-state == Schneier's key expansion from that state (= ordinary Blowfish keying when the pre-state is bc_init_state), klen symbolic 1..=72 (only the first 72 bytes of the cycled key are ever used), co-routine stub: arguments, P array and newest stored pair compared at each of the 521 calls, full state at calls 0/9/137/265/393 and at the end"
 verif_harness! {
     name: bc_expand_key_w,
     bytes: STATE + 90,
